@@ -27,7 +27,7 @@ ASSUMPTIONS = ['input FASTQ is well formed (4 lines per record, equal seq/qual l
                'per-cell output is only combined with barcode strategies (the bulk strategy writes plain strings without a cell)']
 MIN_NONTRIVIAL = {'quick': 100, 'thorough': 2000}
 REQUIRED_MONITORS = ['hook:FastqIterator.__next__', 'hook:target.write', 'hook:reject.write', 'files:strict_parsed',
-                     'oracle:accepted_ids', 'oracle:rejected_ids', 'config:per_cell', 'config:no_reject_handle', 'config:max_read_pairs', 'config:cli', 'config:cli_multi', 'config:cli_auto', 'config:cli_per_lane_jobs', 'input:filelist', 'input:duplicate', 'input:chunked_lanes', 'input:last_line_without_newline']
+                     'oracle:accepted_ids', 'oracle:rejected_ids', 'config:per_cell', 'config:no_reject_handle', 'config:max_read_pairs', 'config:cli', 'config:cli_multi', 'config:cli_auto', 'config:cli_per_lane_jobs', 'input:filelist', 'input:duplicate', 'input:chunked_lanes', 'input:last_line_without_newline', 'input:fastq_form:crlf', 'input:fastq_form:plusname', 'oracle:pairs_accepted_by_the_strategy_but_refused_at_write_time', 'fault:target_write_refused_every_7th']
 SHARD_TIMEOUT = {'quick': 900, 'thorough': 5400}
 
 HDR_KINDS = ['illumina'] * 8 + ['illumina_unknown_index', 'illumina_numeric_index', 'short7', 'scmo', '3dec']
@@ -352,12 +352,17 @@ def run_case(case):
         files = [os.path.join(d, 'lib_R1.fastq.gz')] + ([] if single else [os.path.join(d, 'lib_R2.fastq.gz')])
         unterminated = r.random() < 0.3
         acc.count('input:last_line_without_newline', 1 if unterminated else 0)
-        fq.write_fastq(files, pairs, final_newline=not unterminated)
+        form = ['plain', 'plain', 'crlf', 'plusname'][case['rep'] % 4] if 'rep' in case else 'plain'
+        acc.count('input:fastq_form:' + form)
+        fq.write_fastq(files, pairs, final_newline=not unterminated, form=form)
         use_reject = r.random() < 0.75
         per_cell = name != 'ILLU' and r.random() < 0.3
+        if name == 'ILLU' and case['rep'] % 8 == 5:
+            per_cell = True       # a bulk strategy with one file per cell: nothing can be written per cell, every pair has to end up in the rejects
+        library = 'LIBC01'
         mrp = r.choice([None, None, None, 1, n - 1, n, n + 5, r.randint(1, n)])
         cfg = {'strategy': name, 'k': k, 'single_end_input': single, 'strategy_ends': ends, 'n': n, 'qmax': qmax, 'reject_handle': use_reject,
-               'per_cell': per_cell, 'maxReadPairs': mrp}
+               'per_cell': per_cell, 'maxReadPairs': mrp, 'library_name_length': len(library)}
         if per_cell:
             acc.count('config:per_cell')
         if not use_reject:
@@ -380,6 +385,11 @@ def run_case(case):
         target = FastqHandle(os.path.join(prefix, 'demultiplexed'), not single, single_cell=per_cell, maxHandles=r.randint(2, 5))
         if per_cell:
             target.handles.pruneEvery = r.choice([1, 3, 7, 20])
+        if case['rep'] % 4 == 1 and use_reject:
+            # environment fault: the output device refuses every seventh write of an accepted pair (EIO); the pair was not demultiplexed -
+            # it has to be kept with the rejects and must not be counted
+            tspy.fail_every = 7
+            acc.count('fault:target_write_refused_every_7th')
         target = tspy.wrap(target)
         reject = rspy.wrap(FastqHandle(os.path.join(prefix, 'rejects'), not single)) if use_reject else None
         log_path = os.path.join(prefix, 'demultiplexing.log')
@@ -388,7 +398,7 @@ def run_case(case):
         try:
             with open(log_path, 'w') as log, contextlib.redirect_stdout(out):
                 processed, yields = dmx.demultiplex(files, strategies=[strategy], targetFile=target, rejectHandle=reject,
-                                                    log_handle=log, library='LIBC01', maxReadPairs=mrp)
+                                                    log_handle=log, library=library, maxReadPairs=mrp)
         except Exception as ex:
             crashed = ex
         finally:
@@ -502,6 +512,7 @@ def run_case(case):
         # ---- counters
         n_written = len(d_ids)
         y = sum(yields.values())
+        acc.count('oracle:pairs_accepted_by_the_strategy_but_refused_at_write_time', out.getvalue().count('Fatal error'))
         if y != n_written:
             txt = out.getvalue()
             mech = 'yield-counter-mismatch'
